@@ -403,6 +403,10 @@ VARIANTS = [
    "C23-R1"),
   ("loose-equality-skips-retyped-values", U,
    "      if not strict_equal(orig_value, new_value):", "      if orig_value != new_value:", "C23-R1"),
+  ("loose-equality-as-continue-guard", U,
+   "      if not strict_equal(orig_value, new_value):\n        new_column.set(row_id, new_value)\n        changes.append((row_id, orig_value, new_column.raw_get(row_id)))",
+   "      if orig_value == new_value:\n        continue\n      new_column.set(row_id, new_value)\n      changes.append((row_id, orig_value, new_column.raw_get(row_id)))",
+   "C23-R1"),
   ("changes-not-recorded-for-formula-target", U,
    "    if changes:\n      self._engine.out_actions.summary.add_changes(table_id, col_id, changes)",
    "    if changes and not to_formula:\n      self._engine.out_actions.summary.add_changes(table_id, col_id, changes)",
